@@ -206,8 +206,17 @@ def _pred(name, f):
     return h
 
 
+COST_SPARSE = z3.Bool('the cost coefficient is sparse')
+
+
+def _is_cost(a):
+    return isinstance(a, Obj) and 'objective' in a.name and \
+        a.name.endswith('_coeff[..]')
+
+
 _pred('_isspmatrix', lambda ex, st, a: B(a.issp) if isinstance(a, Coef)
-      else (B(z3.Not(a.isd)) if isinstance(a, Target) else False))
+      else (B(z3.Not(a.isd)) if isinstance(a, Target) else (
+          B(COST_SPARSE) if _is_cost(a) else False)))
 _pred('_isdmatrix', lambda ex, st, a: B(z3.Not(a.issp)) if isinstance(
     a, Coef) else (B(a.isd) if isinstance(a, Target) else B(z3.Bool(
         ex.fresh('isdmatrix')))))
@@ -606,6 +615,18 @@ def run_solve(timeout_ms=10000):
                 add('status', 'proved' if ok else 'refuted',
                     "on every normal return self.status is the status of "
                     "the LP solver's result", sst[-1][3] if sst else 0)
+                la = st.ghost.get('lp_args')
+                if la and la[0]:
+                    a0 = la[0][0]
+                    nm0 = getattr(a0, 'name', '')
+                    conv = nm0.startswith('val')
+                    sp_possible = ex.check(st.pc, [COST_SPARSE]) != z3.unsat
+                    add('lp-cost-dense', 'proved' if (conv or not
+                                                      sp_possible) else
+                        'refuted', 'the cost vector handed to the LP solver '
+                        'is dense: a sparse objective coefficient is '
+                        'converted with matrix(c, tc=\'d\') whatever the '
+                        'format argument (argument: %s)' % nm0)
                 if sc.get('converted', True):
                     vis = st.ghost.get('visited', ())
                     okv = 'vmap' in vis and 'mmap' in vis
